@@ -53,13 +53,18 @@ def _repo_export():
 
 
 def install_stubs(world, *, hashseed='0', msvc=False, tools=None,
-                  touch=True, config=None):
+                  touch=True, config=None, real_tools=None):
     """Populate <world>/bin with the stub toolchain, the bfg9000 shim and the
     tick-stamping `touch`."""
     tool_py = os.path.join(HERE, 'stubs', 'tool.py')
     names = list(tools if tools is not None else STUB_TOOLS)
     if msvc:
         names += list(MSVC_TOOLS)
+    for t in (real_tools or ()):
+        _write_exe(os.path.join(world.bin, t),
+                   '#!/bin/sh\nexec {} -SE {} {} real-{} "$@"\n'
+                   .format(PY, tool_py, world.root, t))
+    names = [t for t in names if t not in (real_tools or ())]
     for t in names:
         fast = GCC_FAST.replace('@T@', t) if t in ('cc', 'c++') else ''
         _write_exe(os.path.join(world.bin, t),
